@@ -132,7 +132,20 @@ def register_impls(pieces, sn):
         if p["kind"] == "DIRECTIVE" and not p["ext"]:
             if p.get("impl") == "none":
                 continue          # declared in the SDL only (metadata directives need no implementation)
-            if p.get("impl") == "sync-hook":
+            if p.get("impl") == "wrapped-sync-hook":
+                import functools
+
+                def plain(fn):
+                    @functools.wraps(fn)
+                    def wrapper(*a, **k):
+                        return None
+                    return wrapper
+
+                class D:
+                    @plain
+                    async def on_field_execution(self, directive_args, next_resolver, parent, args, ctx, info):
+                        return await next_resolver(parent, args, ctx, info)
+            elif p.get("impl") == "sync-hook":
                 class D:
                     def on_field_execution(self, directive_args, next_resolver, parent, args, ctx, info):
                         return None
